@@ -453,4 +453,104 @@ example : (run State.empty [.attempt 0 addrA "X" true, .par T0 addrA "X" 3 12000
       = [.delayed 100000000, .rest 3 3 false [200000000, 400000000, 800000000]] := by
   decide +kernel
 
+/-! ## 7. The call sites
+
+Sections 1–6 are about the throttler.  Whether an attempt is throttled at all is decided where the
+throttler is *called*: a handler that looks at the credential first and consults the throttler only when it
+is bad keeps recording, delaying and refusing bad attempts — and lets a blocked address in on its first good
+guess.  The paths of the three handlers are regenerated from the source (`Generated/ThrottleSites.lean`). -/
+
+/-- **The facts about the call sites**, recomputed from the source on every run: each of the three handlers
+(room API checksum, internal token, resume id) consults the throttler, for its own kind of attempt, before
+anything that looks at the credential; on `ErrBruteforceDetected` it answers 429 / `too_many_requests` and
+does nothing else; it calls the returned function once, before answering, on exactly the paths that reject
+the credential.  And nobody else in hub.go / backend_server.go consults the throttler. -/
+theorem C17_site_facts :
+    sites.map (fun sp => siteCfg sp.1 sp.2) = [SiteCfg.guarded, SiteCfg.guarded, SiteCfg.guarded] ∧
+    sites.map (fun sp => refusalOf sp.2) = ["http:429", "error:too_many_requests", "error:too_many_requests"] ∧
+    SigModel.Generated.ThrottleSites.checkCallers
+      = ["BackendServer.roomHandler", "Hub.processHello", "Hub.processHelloInternal"] := by
+  decide
+
+theorem C17_site_cfg (a : Action) (sp : SiteSpec × List SitePath) (h : siteOf a = some sp) :
+    siteCfg sp.1 sp.2 = SiteCfg.guarded := by
+  have hf := C17_site_facts.1
+  unfold siteOf at h
+  have hm := List.mem_of_find?_eq_some h
+  have : siteCfg sp.1 sp.2 ∈ sites.map (fun sp => siteCfg sp.1 sp.2) := List.mem_map.mpr ⟨sp, hm, rfl⟩
+  rw [hf] at this
+  simpa using this
+
+/-- With the three facts, an attempt handled by a call site is a whole attempt of sections 2–4:
+consultation first, refusal if blocked, failure recorded iff the credential is rejected. -/
+theorem C17_site_is_attempt (st : State) (now : Int) (addr : Addr) (a : Action) (failed : Bool) :
+    siteAttempt SiteCfg.guarded st now addr a failed = step st (.attempt now addr a failed) := by
+  unfold siteAttempt step SiteCfg.guarded
+  simp only [Bool.true_or, Bool.and_true, if_true]
+
+theorem siteRun_guarded (as : List (Int × Addr × Action × Bool)) (st : State) :
+    siteRun SiteCfg.guarded st as = run st (as.map fun x => .attempt x.1 x.2.1 x.2.2.1 x.2.2.2) := by
+  induction as generalizing st with
+  | nil => rfl
+  | cons x rest ih =>
+    obtain ⟨now, addr, a, failed⟩ := x
+    simp only [siteRun, run, List.map, C17_site_is_attempt, ih]
+
+/-- **Blocked ⇒ refused, whatever the credential.**  If the code's refusal test holds for the address and
+kind, the handler refuses the attempt — good credential or bad — and records nothing. -/
+theorem C17_site_blocked_refused (st : State) (now : Int) (addr : Addr) (a : Action) (failed : Bool)
+    (hb : blocked now (st (throttleKey addr) a) = true) :
+    siteAttempt SiteCfg.guarded st now addr a failed = (st, .refused) := by
+  have hne : st (throttleKey addr) a ≠ [] := by
+    intro h; rw [h] at hb
+    have : blocked now [] = false := by
+      unfold blocked; simp [attemptsCmp_ge]
+    rw [this] at hb; cases hb
+  rw [C17_site_is_attempt]
+  unfold step check
+  simp [hne, hb]
+
+/-- **Histories of handled attempts.**  For every sequence of attempts arriving at the three handlers
+(address, kind, credential good or bad) under a monotone clock, the outcomes are those of the counting
+spec: refused iff ten failures of that kind from that address (/64) lie within thirty minutes —
+independently of what the refused attempt presents. -/
+theorem C17_site_block_iff_window (t0 : Int) (as : List (Int × Addr × Action × Bool))
+    (hm : Monotone t0 (as.map fun x => .attempt x.1 x.2.1 x.2.2.1 x.2.2.2)) :
+    (siteRun SiteCfg.guarded State.empty as).2
+      = (specRun Hist.empty (as.map fun x => .attempt x.1 x.2.1 x.2.2.1 x.2.2.2)).2 := by
+  rw [siteRun_guarded]
+  exact C17_block_iff_window t0 _ hm
+
+private def tenBad : List (Int × Addr × Action × Bool) :=
+  (List.range 10).map fun i => (s (Int.ofNat i), addrA, "BackendRoomAuth", true)
+
+/-- Non-vacuity: ten bad checksums, then a good one and a bad one from the blocked address: both refused;
+31 minutes later a good one is served. -/
+example : Monotone 0 ((tenBad ++ [(s 10, addrA, "BackendRoomAuth", false), (s 11, addrA, "BackendRoomAuth", true),
+      (s 1871, addrA, "BackendRoomAuth", false)]).map fun x => Op.attempt x.1 x.2.1 x.2.2.1 x.2.2.2) ∧
+    (siteRun SiteCfg.guarded State.empty (tenBad ++ [(s 10, addrA, "BackendRoomAuth", false),
+      (s 11, addrA, "BackendRoomAuth", true), (s 1871, addrA, "BackendRoomAuth", false)])).2.drop 10
+      = [.refused, .refused, .passed] := by
+  decide +kernel
+
+/-- The facts matter: a handler that consults the throttler only once the credential has been found bad
+(everything else as before: bad attempts recorded, delayed, the eleventh refused) serves the blocked address
+as soon as it presents a good credential. -/
+example : (siteRun ⟨false, true, true⟩ State.empty (tenBad ++ [(s 10, addrA, "BackendRoomAuth", true),
+      (s 11, addrA, "BackendRoomAuth", false)])).2.drop 9 = [.delayed 25000000000, .refused, .passed] ∧
+    (specRun Hist.empty ((tenBad ++ [(s 10, addrA, "BackendRoomAuth", true),
+      (s 11, addrA, "BackendRoomAuth", false)]).map fun x => Op.attempt x.1 x.2.1 x.2.2.1 x.2.2.2)).2.drop 9
+      = [.delayed 25000000000, .refused, .refused] := by
+  decide +kernel
+
+/-- … and the path predicates do tell such a handler from the present one: the check moved into a helper
+that runs on the rejection paths only. -/
+example : siteCfg roomSpec
+    [[("call", "mux.Vars"), ("call", "ValidateBackendChecksum"), ("reply", "http:(responseStatus)"), ("return", "")],
+     [("call", "mux.Vars"), ("call", "ValidateBackendChecksum"), ("call", "r.Context"), ("call", "b.hub.getRealUserIP"),
+      ("check", "BackendRoomAuth"), ("blocked", "+"), ("reply", "http:429"), ("return", "")],
+     [("call", "mux.Vars"), ("call", "ValidateBackendChecksum"), ("call", "r.Context"), ("call", "b.hub.getRealUserIP"),
+      ("check", "BackendRoomAuth"), ("blocked", "-"), ("err", "-"), ("throttle", ""), ("reply", "http:403"), ("return", "")]]
+    = ⟨false, true, false⟩ := by decide
+
 end SigModel.Throttle
